@@ -157,6 +157,48 @@ func goEnv() []string {
 	return append(env, "GOFLAGS=-mod=readonly", "GOPROXY=off", "GOSUMDB=off", "GOTOOLCHAIN=local")
 }
 
+// generatedOverlays derives overlay files from /repo's CURRENT sources on every
+// run. At present: pkg/dynamic/informer/informer.go with the two client-go
+// constructor calls inside newSharedResourceInformer re-pointed at the test seam
+// of zz_verif_seam.go (cache.NewSharedIndexInformer -> verifNewSharedIndexInformer,
+// dynamiclister.New -> verifNewLister); every other line is byte-identical.
+func generatedOverlays() map[string][]byte {
+	out := map[string][]byte{}
+	src := filepath.Join(repoDir, "pkg/dynamic/informer/informer.go")
+	b, err := os.ReadFile(src)
+	if err != nil {
+		fatal("%v", err)
+	}
+	lines := strings.Split(string(b), "\n")
+	start, end := -1, -1
+	for i, l := range lines {
+		if strings.HasPrefix(l, "func newSharedResourceInformer(") {
+			start = i
+		}
+		if start >= 0 && end < 0 && i > start && l == "}" {
+			end = i
+		}
+	}
+	if start < 0 || end < 0 {
+		fatal("informer.go: newSharedResourceInformer not found - adapt the C18 seam (generatedOverlays)")
+	}
+	subs := [][2]string{{"cache.NewSharedIndexInformer(", "verifNewSharedIndexInformer("}, {"dynamiclister.New(", "verifNewLister("}}
+	for _, sub := range subs {
+		n := 0
+		for i := start; i <= end; i++ {
+			if strings.Contains(lines[i], sub[0]) && !strings.HasPrefix(strings.TrimSpace(lines[i]), "//") {
+				lines[i] = strings.Replace(lines[i], sub[0], sub[1], 1)
+				n++
+			}
+		}
+		if n != 1 {
+			fatal("informer.go: expected exactly one call of %s inside newSharedResourceInformer, found %d - adapt the C18 seam", sub[0], n)
+		}
+	}
+	out[src] = []byte(strings.Join(lines, "\n"))
+	return out
+}
+
 type Loaded struct {
 	prog *ssa.Program
 	pkgs map[string]*ssa.Package
@@ -169,6 +211,9 @@ func load(patterns []string) *Loaded {
 		if err != nil {
 			fatal("%v", err)
 		}
+		ov[virt] = b
+	}
+	for virt, b := range generatedOverlays() {
 		ov[virt] = b
 	}
 	cfg := &packages.Config{
@@ -251,6 +296,13 @@ func nativeRun(pkgPath, pkgName string, funcs []string, cases []Case) ([]NativeR
 		repl[virt] = real
 	}
 	repl[filepath.Join(repoDir, strings.TrimPrefix(pkgPath, "metacontroller/"), "zz_verif_replay_test.go")] = testFile
+	gi := 0
+	for virt, b := range generatedOverlays() {
+		gf := filepath.Join(tmp, fmt.Sprintf("generated%d.go", gi))
+		gi++
+		os.WriteFile(gf, b, 0o644)
+		repl[virt] = gf
+	}
 	ovb, _ := json.Marshal(map[string]interface{}{"Replace": repl})
 	ovFile := filepath.Join(tmp, "overlay.json")
 	os.WriteFile(ovFile, ovb, 0o644)
